@@ -4,7 +4,7 @@ Driver for stream `mpt` (C10): one op per line, one observation per line. Keys/v
 with HashNodes over a node store (Model/Mpt/Lazy*.lean), both driven by every line: put / del /
 batch / get / root / proof are answered from the lazy model (errors included) and cross-checked against the
 expanded one (`MISMATCH…` if they differ, which Props/C10Lazy.lean proves impossible while every
-node can be loaded); seek is answered by the lazy traversal from `HashNode(root)`, find from the expanded trie. `H` is the real double
+node can be loaded); seek is answered by the lazy traversal from `HashNode(root)`, find by the lazy Find (which loads nodes in place). `H` is the real double
 SHA-256, so roots and proofs are compared with the implementation byte for byte. The node store is
 a hash map from node hash to bytes (the model's `LStore` is its lookup function); `drop` removes a
 record, after which only the lazy model is meaningful (the harness sends only put / del / batch /
@@ -32,6 +32,7 @@ import NeoModel.Model.Mpt.LazyBatch
 import NeoModel.Model.Mpt.FindExact
 import NeoModel.Model.Mpt.Guards
 import NeoModel.Model.Mpt.LazySeek
+import NeoModel.Model.Mpt.LazyFind
 import Std.Data.HashMap
 open NeoModel NeoModel.Mpt
 
@@ -135,9 +136,14 @@ def step (s : DSt) (ws : List String) : DSt × String :=
     | some pb, some fo, some mx =>
       if findGuard pb.length (fo.getD []).length then (s, "err")
       else
-        match findX t (toNibbles pb) (fo.map toNibbles) mx with
-        | some l => (s, "find " ++ showKVs pb l)
-        | none => (s, "err")
+        -- answered by the lazy model: Find loads nodes of the trie in place (prefix path, traversal up
+        -- to the stop), the model keeps them; cross-checked against `findX` on the expanded trie
+        let r := lfind s.store fuel s.l (toNibbles pb) (fo.map toNibbles) mx
+        if !s.dropped && decide (r.2 ≠ findX t (toNibbles pb) (fo.map toNibbles) mx) then (s, "MISMATCH-find")
+        else
+          match r.2 with
+          | some l => ({ s with l := r.1 }, "find " ++ showKVs pb l)
+          | none => ({ s with l := r.1 }, "err")
     | _, _, _ => (s, "bad-op")
   | ["seek", p, st, b] =>
     match Hex.decode p, Hex.decode st with
